@@ -125,6 +125,36 @@ def fam_crash_shutdown(rng):
     return dict(exec=dict(kind="plain", max_workers=maxw, timeout=rng.choice([None, None, 0.5])), users={"u1": u1}, fam="crash_shutdown")
 
 
+def fam_trace(rng):
+    """scenarios whose every operation has a counterpart in LokyExecutor.tla: their E-SIM executions are validated as
+    behaviours of the specification (checks/exec_trace.py)"""
+    maxw = rng.choice([1, 1, 2, 2, 3])
+    nt = rng.randint(1, 4)
+    fin = rng.choice(["shutdown_wait", "shutdown_wait", "shutdown_nowait", "kill", "del", "exit", "none"])
+    pool = ["ok", "ok", "ok", "raise", "big", "unpicklable_arg", "hugearg"] + (["long"] if fin == "kill" else []) + (["crash"] if rng.random() < 0.3 else [])
+    u1 = []
+    for i in range(nt):
+        u1.append(["submit", i + 1, rng.choice(pool)])
+        r = rng.random()
+        if r < 0.2 and u1[-1][2] != "long":
+            u1.append(["wait", i + 1])
+        elif r < 0.3:
+            u1.append(["sleep", 1.0])
+    if fin == "shutdown_wait":
+        u1 += [["shutdown", True, False]]
+    elif fin == "shutdown_nowait":
+        u1 += [["shutdown", False, False], ["wait_all"]]
+    elif fin == "kill":
+        u1 += [["shutdown", True, True]]
+    elif fin == "del":
+        u1 += [["del"], ["wait_all"]]
+    elif fin == "exit":
+        u1 += [["exit"], ["wait_all"]]
+    else:
+        u1 += [["wait_all"], ["settle"]]
+    return dict(exec=dict(kind="plain", max_workers=maxw, timeout=rng.choice([None, None, 0.5])), users={"u1": u1}, fam="trace")
+
+
 def fam_respawn_crash(rng):
     """a worker spawned by submit() (after idle timeouts emptied the pool, or at first use) dies at once: the window in
     which the manager's sentinel snapshot does not yet contain the new worker"""
@@ -291,7 +321,7 @@ def fam_reusable(rng):
     return dict(exec=dict(kind="reusable", max_workers=m0, timeout=tmo), users=users, fam="reusable")
 
 
-FAMILIES = dict(crash_shutdown=fam_crash_shutdown, callback=fam_callback, resize_partial=fam_resize_partial, resize_wait=fam_resize_wait, map=fam_map, reusable=fam_reusable, respawn_crash=fam_respawn_crash, mixed=fam_mixed, crash=fam_crash, kill=fam_kill, timeout=fam_timeout, saturation=fam_saturation, init=fam_init)
+FAMILIES = dict(trace=fam_trace, crash_shutdown=fam_crash_shutdown, callback=fam_callback, resize_partial=fam_resize_partial, resize_wait=fam_resize_wait, map=fam_map, reusable=fam_reusable, respawn_crash=fam_respawn_crash, mixed=fam_mixed, crash=fam_crash, kill=fam_kill, timeout=fam_timeout, saturation=fam_saturation, init=fam_init)
 
 
 def policies(rng, fam):
@@ -307,6 +337,8 @@ def policies(rng, fam):
         p["kind"] = "prio"
         if rng.random() < 0.5:
             p["crash_at"] = [dict(label=rng.choice(["start", "init", "cq.rlock.acq", "cq.r.poll"]), nth=rng.randint(1, 4))]
+    if fam == "trace" and rng.random() < 0.4:
+        p["crash_at"] = [dict(label=rng.choice(WORKER_LABELS), nth=rng.randint(1, 4))]
     if fam == "crash_shutdown":
         p["kind"] = "prio"
         p["low"] = [rng.choice(["mgr", "mgr", "W", "u"])]
@@ -439,6 +471,70 @@ def classify_default(why, f, c, o):
     return {}
 
 
+def conformance(ctx, prop, classify):
+    """code -> spec: E-SIM executions of the `trace` family are validated as behaviours of LokyExecutor.tla
+    (Trace_LokyExecutor.tla).  A rejected execution is not an alarm by itself (the code may deviate from the specification
+    without breaking the property): it directs the search -- the scenario is re-executed under many more schedules and
+    crash points and judged by the property monitor, which is what raises alarms."""
+    from checks import exec_trace
+    n = 160 if ctx.tier == "thorough" else 32
+    cases = gen_cases(ctx.seed * 7919 + 100 * int(prop[1:]) + 17, n, ["trace"])
+    for c in cases:
+        c["keep_decisions"] = True
+    outs = run_sim(ctx, cases, "trc")
+    res = exec_trace.validate(ctx, cases, outs, tag=prop)
+    acc = [r for _, _, r in res if r.get("ok") is True]
+    rej = [(c, o, r) for c, o, r in res if r.get("ok") is False]
+    err = [r for _, _, r in res if r.get("ok") is None]
+    if err:
+        raise runner.Machinery("trace validation failed to run: %s" % err[0].get("err", "")[-800:])
+    # self-test of the binding: an accepted execution with two of a worker's events swapped must be rejected
+    tampered = None
+    for c, o, r in res:
+        if r.get("ok") is True:
+            ev = exec_trace.project(o["decisions"], o["trace"])
+            idx = [i for i, e in enumerate(ev) if e["a"] == "cq.r.recv"]
+            if idx and idx[0] + 1 < len(ev):
+                i = idx[0]
+                j = next((k for k in range(i + 1, len(ev)) if ev[k]["w"] == ev[i]["w"]), None)
+                if j is None:
+                    continue
+                ev[i], ev[j] = ev[j], ev[i]
+                d = os.path.join(ctx.work, "trace_tamper_%s" % prop)
+                exec_trace.write_instance(d, c, ev)
+                tr = tlc.check(d, "Trace_LokyExecutor", "trace.cfg", workers=1, timeout=600, coverage=False, heap="3g")
+                tampered = not (tr.violation and tr.violation[1] == "NotAccepted")
+                break
+    if tampered is False:
+        raise runner.Machinery("Trace_LokyExecutor accepted a tampered trace (two events of a worker swapped): the trace spec constrains nothing")
+    ctx.traces_validated += len(acc)
+    ctx.extra["conformance"] = dict(executions=len(res), accepted=len(acc), rejected=len(rej), tamper_rejected=tampered,
+                                    events=sum(r["n"] for _, _, r in res), tlc_states=sum(r.get("states", 0) for _, _, r in res),
+                                    first_mismatches=[dict(scenario=c["scn"]["users"], matched=r["matched"], of=r["n"], next=r["next"],
+                                                           before=r["before"][-3:]) for c, o, r in rej[:3]])
+    for c, o in zip(cases, outs):
+        ctx.case(key="trc:" + json.dumps([c["scn"]["users"], c["scn"]["exec"]]) + str(o["nsteps"]) + str(c["seed"]),
+                 nontrivial=any(e["ev"] == "die" for e in o["trace"]))
+    allc, allo = list(cases), list(outs)
+    if rej:
+        # amplification: the scenarios the specification cannot explain, under many more schedules and crash points
+        ctx.notes.append("%d of %d executions are not behaviours of LokyExecutor.tla (first mismatch after event %d: %s); their "
+                         "scenarios were re-executed under %d further schedules and judged by the monitor"
+                         % (len(rej), len(res), rej[0][2]["matched"], rej[0][2]["next"], min(len(rej), 10) * 40))
+        rng = random.Random(ctx.seed + 4242)
+        amp = []
+        for c, o, r in rej[:10]:
+            for k in range(40):
+                pol = policies(rng, "crash" if k % 2 else "mixed")
+                amp.append(dict(i=len(amp), scn=c["scn"], policy=pol, seed=rng.randrange(1 << 30)))
+        ampo = run_sim(ctx, amp, "amp")
+        for c in amp:
+            c["i"] += len(allc)
+        allc += amp
+        allo += ampo
+    judge(ctx, prop, allc, allo, classify, "trace")
+
+
 def run_property(ctx, prop, fams, n_quick, n_thorough, classify=classify_default, extra_cases=None):
     from checks import exec_model
     tlc.stage(ctx.work)
@@ -471,6 +567,8 @@ def run_property(ctx, prop, fams, n_quick, n_thorough, classify=classify_default
     ctx.sample(dict(scenario=cases[k]["scn"], policy=cases[k]["policy"], seed=cases[k]["seed"],
                     observed=outs[k]["trace"][:10], end=outs[k].get("end")))
     rep = judge(ctx, prop, cases, outs, classify, "esim")
+    if prop in ("C01", "C02", "C03", "C04", "C05", "C06", "C07", "C08") and not os.environ.get("VERIF_DEV_SKIP_TLC"):
+        conformance(ctx, prop, classify)
     ctx.rule = ("each case = one scenario (API history by 1-2 user threads over the real loky code on modelled primitives) x one "
                 "seeded schedule (uniform / priority with change points, adversarial idle timeouts, crashes at chosen worker "
                 "program points); distinct = distinct (scenario, seed, step count); non-trivial = a process died/left or two users raced")
